@@ -194,6 +194,65 @@ fn short_strings<T: Wire>(cx: &Cx, name: &str) {
     }
 }
 
+/// The decoder every received datagram really goes through is `UdpNetwork`'s (Linux `recvmmsg` path):
+/// on a real loopback socket, a valid encoding with bytes appended, cut short, or followed by a second
+/// complete encoding must not be delivered as a message; the clean sentinel sent right after must be
+/// the first thing `receive()` returns.
+fn udp_probe<T>(rt: &tokio::runtime::Runtime, report: &Report, family: &str, valid: &T, sentinel: &T) -> usize
+where
+    T: Wire + Send + Sync + 'static + SchemaWrite<DefaultConfig, Src = T> + for<'de> SchemaRead<'de, alpenglow::network::NetworkMessageConfig, Dst = T>,
+{
+    use alpenglow::network::{Network, UdpNetwork};
+    let good = valid.enc();
+    let want = sentinel.enc();
+    if good.is_empty() || want.is_empty() || good == want {
+        crate::common::machinery_failure(&format!("C19 udp probe: bad fixtures for {family}"));
+    }
+    let mut variants: Vec<(&str, Vec<u8>)> = Vec::new();
+    for (name, tail) in [("one-zero-byte-appended", vec![0u8]), ("one-ff-byte-appended", vec![0xff]), ("eight-bytes-appended", vec![0x5a; 8])] {
+        let mut b = good.clone();
+        b.extend_from_slice(&tail);
+        variants.push((name, b));
+    }
+    let mut twice = good.clone();
+    twice.extend_from_slice(&good);
+    variants.push(("two-encodings-in-one-datagram", twice));
+    variants.push(("last-byte-cut", good[..good.len() - 1].to_vec()));
+    let mut cases = 0;
+    for (vname, bytes) in variants {
+        if bytes.len() > 1472 {
+            continue;
+        }
+        cases += 1;
+        let want = want.clone();
+        let r: Result<(), String> = rt.block_on(async {
+            let net: UdpNetwork<T, T> = UdpNetwork::new_with_any_port();
+            let to = ("127.0.0.1", net.port());
+            let sock = std::net::UdpSocket::bind("127.0.0.1:0").map_err(|e| format!("machinery: {e}"))?;
+            sock.send_to(&bytes, to).map_err(|e| format!("machinery: {e}"))?;
+            sock.send_to(&want, to).map_err(|e| format!("machinery: {e}"))?;
+            let h = tokio::spawn(async move { net.receive().await.map(|m| m.enc()).map_err(|e| format!("{e:?}")) });
+            match tokio::time::timeout(std::time::Duration::from_secs(5), h).await {
+                Ok(Ok(Ok(got))) if got == want => Ok(()),
+                Ok(Ok(Ok(_))) => Err("delivered".to_string()),
+                Ok(Ok(Err(e))) => Err(format!("machinery: receive failed: {e}")),
+                Ok(Err(j)) => Err(format!("the receiving task died: {j}")),
+                Err(_) => Err("machinery: sentinel not delivered within 5 s".to_string()),
+            }
+        });
+        match r {
+            Ok(()) => {}
+            Err(m) if m.starts_with("machinery") => crate::common::machinery_failure(&format!("C19 udp probe {family}/{vname}: {m}")),
+            Err(m) => report.violation(
+                format!("C19:udp-transport-accepts-inexact-datagram:{family}:{vname}"),
+                format!("a real UdpNetwork socket handed a datagram that is not exactly one encoding ({vname}, {} bytes) to the application as a {family} message: {m}", bytes.len()),
+                json!({"interface": "UdpNetwork on loopback", "family": family, "variant": vname, "datagram_bytes": bytes.len()}),
+            ),
+        }
+    }
+    cases
+}
+
 fn many_validators(n: usize, template: &ValidatorInfo) -> Vec<ValidatorInfo> {
     (0..n)
         .map(|i| {
@@ -381,6 +440,32 @@ pub fn run(tier: Tier) -> i32 {
         if from_mirror::<MMsg, ConsensusMessage>(&MMsg::Cert(MCert::Final(c2))).is_err() {
             report.violation("C19:valid-encoding-rejected:bitmask-2048", "2048-bit bitmask rejected".to_string(), json!({}));
         }
+    }
+
+    // ---- the transport's own decoder (real UDP sockets on loopback)
+    let mut udp_cases = 0;
+    if crate::common::replay_req().is_none() {
+        let rt = tokio::runtime::Builder::new_multi_thread().worker_threads(2).enable_all().build().unwrap();
+        let vote = |s: u64| ConsensusMessage::Vote(Vote::new_skip(Slot::new(s), sk, vi(1)));
+        udp_cases += udp_probe(&rt, &report, "vote", &vote(3), &vote(4));
+        let fc = |s: u64| ConsensusMessage::Cert(Cert::Final(FinalCert::new(&[FinalVote::new(Slot::new(s), sk, vi(0))], e.info.validators())));
+        udp_cases += udp_probe(&rt, &report, "certificate", &fc(3), &fc(4));
+        udp_cases += udp_probe(&rt, &report, "transaction", &Transaction(vec![1, 2, 3]), &Transaction(vec![9; 5]));
+        let mut sh = RegularShredder::default();
+        let sl_a = mk_slice(5, 0, true, false, 40);
+        let sl_b = mk_slice(6, 0, true, false, 40);
+        if let (Ok(a), Ok(b)) = (sh.shred(&sl_a, &lsk), sh.shred(&sl_b, &lsk)) {
+            udp_cases += udp_probe(&rt, &report, "shred", a[0].as_shred(), b[0].as_shred());
+            let rq = |slot: u64| RepairRequestType::Shred((Slot::new(slot), bh("blk")), slice_index(0), ShredIndex::new(0).unwrap());
+            udp_cases += udp_probe(&rt, &report, "repair-response", &RepairResponse::Shred(rq(5), a[0].as_shred().clone()), &RepairResponse::Nack(rq(6)));
+        }
+        let req = |sender: u64| from_mirror::<MRequest, RepairRequest>(&MRequest { sender, req: MReqType::LastSliceRoot(MBlockId { slot: 77, hash: [3; 32] }) });
+        if let (Ok(a), Ok(b)) = (req(1), req(2)) {
+            udp_cases += udp_probe(&rt, &report, "repair-request", &a, &b);
+        }
+        cx.evals.fetch_add(udp_cases, Ordering::Relaxed);
+        cx.nontrivial.fetch_add(udp_cases, Ordering::Relaxed);
+        println!("  udp transport exactness: {udp_cases} datagrams");
     }
 
     // ---- arbitrary short byte strings
